@@ -243,7 +243,7 @@ int main(int argc, char** argv)
   sbx_t* sbs[2] = { &A, &B };
   std::vector<CBT>* cbs[2] = { &cbA, &cbB };
   std::vector<Tree> trees;
-  gen_trees(3, 3, trees, true);
+  gen_trees(g_args.replay ? std::max(3, tree_str_depth(g_args.replay)) : (thorough ? 4 : 3), 3, trees, true);
   // a few trees using the third pool function as well
   {
     std::vector<Tree> extra;
